@@ -793,17 +793,23 @@ func newTeletextCharacterDecoder() *teletextCharacterDecoder {
 
 // TODO Add tests
 func (d *teletextCharacterDecoder) setTripletM29(i uint32) {
-	if *d.tripletM29 != i {
+	if d.tripletM29 == nil || *d.tripletM29 != i {
 		d.tripletM29 = astikit.UInt32Ptr(i)
-		d.updateCharset(d.lastPageCharsetCode, true)
+		// No page has been parsed yet: the charset will be updated when the first one is
+		if d.lastPageCharsetCode != nil {
+			d.updateCharset(d.lastPageCharsetCode, true)
+		}
 	}
 }
 
 // TODO Add tests
 func (d *teletextCharacterDecoder) setTripletX28(i uint32) {
-	if *d.tripletX28 != i {
+	if d.tripletX28 == nil || *d.tripletX28 != i {
 		d.tripletX28 = astikit.UInt32Ptr(i)
-		d.updateCharset(d.lastPageCharsetCode, true)
+		// No page has been parsed yet: the charset will be updated when the first one is
+		if d.lastPageCharsetCode != nil {
+			d.updateCharset(d.lastPageCharsetCode, true)
+		}
 	}
 }
 
